@@ -45,7 +45,7 @@ ASSUMPTIONS = [
     "age == expiration exactly is unspecified; expiration=0 and unhashable arguments are not generated",
     "identity-hashed receivers in the base workload; ==-equal distinct receivers run as a separate family",
 ]
-MINIMUMS = {"monitor:required-hit": 20000, "monitor:right-key": 20000, "monitor:capacity": 20000, "evictions_forced": 2000, "expiry_boundary_crossed": 2000, "required_hit_after_reorder": 300}
+MINIMUMS = {"monitor:required-hit": 20000, "monitor:right-key": 20000, "monitor:capacity": 20000, "evictions_forced": 2000, "expiry_boundary_crossed": 2000, "required_hit_after_reorder": 300, "histories_with_hash_colliding_keys": 100}
 JOBS = {"quick": 4, "thorough": 16}
 LEVEL_TEXT = (
     "All histories up to the tier's length (quick 5-6, thorough 7) over 3 typed-distinct keys and 2 dyadic clock advances are run for every "
@@ -290,6 +290,8 @@ def run_history(R: Recorder, case: dict[str, Any], verbose: bool = False) -> Non
     if flags["reorder_hit"]:
         R.count("required_hit_after_reorder")
     R.count("operations", len(hist))
+    if case.get("colliding"):
+        R.count("histories_with_hash_colliding_keys")
     R.distinct("model_states", (tuple(specs[1].recent()), tuple(sorted((repr(k), b is not None and (exp is None or clock.now - b < exp)) for k, b in specs[1].birth.items() if k in specs[1].last_use))))
     if status != "ok":
         R.monitor("right-key", False, where={"flavour": flavour, "kind": f"history-{status}", "receivers": family}, detail=f"history ended {status}: {value!r}", case=case)
@@ -312,6 +314,7 @@ KEYS3 = {
     False: [(None, (1, 0)), (None, (1.0, 0)), (None, (True, 0))],
     True: [("A", (1, 0)), ("B", (1, 0)), ("A", (1.0, 0))],
 }
+COLLIDING = [-1, -2, 0, 2**61 - 1, 1, 2**61]  # hash(-1) == hash(-2), hash(0) == hash(2**61-1), hash(1) == hash(2**61)
 KEYS8 = [1, 1.0, True, "1", 2, (1,), (1.0,), None]
 
 
@@ -340,6 +343,9 @@ def random_case(rng: random.Random) -> dict[str, Any]:
     vals = rng.sample(KEYS8, nkeys)
     hist: list[Any] = []
     twin_pool = rng.random() < 0.3
+    collide_pool = not twin_pool and rng.random() < 0.2
+    if collide_pool:
+        vals = rng.sample(COLLIDING, rng.randint(2, 6))  # same type, different values, equal hashes
     for _ in range(rng.randint(6, 60)):
         if rng.random() < 0.25:
             hist.append(["adv", rng.choice([0.125, 0.5, 1.0, 1.5])])
@@ -350,6 +356,8 @@ def random_case(rng: random.Random) -> dict[str, Any]:
                 a, b = rng.choice([1, 1.0, True]), rng.choice([1, 1.0, True])  # ==-equal values of different types under both names
             recv = rng.choice("ABC") if is_method else None
             hist.append(["call", recv, [a, b], rng.random() < 0.06, rng.random() < 0.5])
+    if collide_pool:
+        return {"flavour": flavour, "limit": limit, "exp": exp, "form": rng.choice(["pos", "kw"]), "hist": hist, "colliding": True}
     return {"flavour": flavour, "limit": limit, "exp": exp, "form": "kw" if twin_pool and rng.random() < 0.7 else rng.choice(["pos", "pos", "kw"]), "hist": hist}
 
 
